@@ -2031,6 +2031,14 @@ def run_invert(ctx, vcfg):
                          dict(at=at, value=str(got[at]) if at else None, products=list(x.d.applycal_products)),
                          dict(at=at, value=str(clean[at]) if at else None),
                          'data corrupted by known gains are not restored within %g relative' % REL_TOL)
+        # the stated bound of C13_restored_within_rounding: |got - clean| <= ((1 + eps)^n - 1) * |clean| with
+        # eps = 2^-22 per rounded complex64 operation and n = 4 * #products + 3 rounding steps (reciprocal and running
+        # product per input and product, g1 * conj(g2), data * c, the stored value).  Recorded in the evidence; the
+        # pass / fail tolerance above is the wider one (the solutions in telstate are themselves rounded).
+        n_steps = 4 * len(vcfg['applycal']) + 3
+        bound = float((1 + Fraction(1, 2 ** 22)) ** n_steps - 1)
+        ctx.count('invert_within_theorem_bound(eps=2^-22,n=4P+3)=%s'
+                  % bool(np.all(np.abs(got - clean) <= bound * np.abs(clean))))
         pre = vcfg.get('preselect') or {}
         if pre:
             t0, t1 = pre.get('dumps', [0, T])
